@@ -450,6 +450,9 @@ func (db *DB) capWALAge(wal *wal.WAL, stop <-chan interface{}) {
 
 func (db *DB) trackMemStats() {
 	for {
+		if verifClosed(db) {
+			return
+		}
 		db.updateMemStats()
 		time.Sleep(2 * time.Second)
 	}
